@@ -243,7 +243,8 @@ class FilteredResourceObserver:
         if new_main is None:
             return None
         diff = resource.path[len(main.path) :]
-        return resource.project.get_resource(new_main.path + diff)
+        # The watched resource need not exist (any more), so do not look it up.
+        return type(resource)(resource.project, new_main.path + diff)
 
 
 class ChangeIndicator:
